@@ -23,6 +23,15 @@ pub fn mk(id: TableId, entry_size: u16, multipart: bool, ref_counted: bool, capa
 	}
 }
 
+/// Multitree-style table: keeps the in-memory free stack (claim_entries needs it).
+pub fn mk_mt(id: TableId, entry_size: u16, multipart: bool, capacity: u64, stack: Vec<u64>) -> ValueTable {
+	let mut t = mk(id, entry_size, multipart, false, capacity);
+	t.needs_free_entries = true;
+	t.free_entries = Some(RwLock::new(FreeEntries { stack }));
+	t
+}
+pub fn free_stack_of(t: &ValueTable) -> Vec<u64> { t.free_entries.as_ref().map(|f| f.read().stack.clone()).unwrap_or_default() }
+
 pub fn set_filled(t: &ValueTable, v: u64) { t.filled.store(v, Ordering::Relaxed); }
 pub fn set_last_removed(t: &ValueTable, v: u64) { t.last_removed.store(v, Ordering::Relaxed); }
 pub fn filled_of(t: &ValueTable) -> u64 { t.filled.load(Ordering::Relaxed) }
